@@ -1,7 +1,12 @@
 (* C15 — trace checker for the correspondence run.  The hash function is
    instantiated by a per-case table (preimage id -> hash id) that the harness
    computed with the real SHA-256; ids not in the table hash to 0 (never a
-   payment hash id). *)
+   payment hash id).  The AMP reconstruction oracle is instantiated by a
+   per-case table computed with the real amp.ReconstructChildren: entries are
+   keyed by the ascending list of child descriptors; a query is sorted, looked
+   up, and the answers are handed back in the order of the query (the real
+   function is equivariant under permutation: XOR of the shares, then one
+   derivation per descriptor).  Unknown queries answer [] (= no child matches). *)
 From Coq Require Import List NArith ZArith Bool.
 From LV Require Import Invoice.Model.
 Import ListNotations.
@@ -10,6 +15,33 @@ Fixpoint tbl (t : list (N * N)) (p : N) : N :=
   match t with
   | [] => 0%N
   | (a, b) :: r => if N.eqb a p then b else tbl r p
+  end.
+
+Definition desc_leb (a b : N * N) : bool :=
+  N.ltb (fst a) (fst b) || (N.eqb (fst a) (fst b) && N.leb (snd a) (snd b)).
+Definition desc_eqb (a b : N * N) : bool := N.eqb (fst a) (fst b) && N.eqb (snd a) (snd b).
+Fixpoint desc_insert (d : N * N) (l : list (N * N)) : list (N * N) :=
+  match l with
+  | [] => [d]
+  | x :: r => if desc_leb d x then d :: l else x :: desc_insert d r
+  end.
+Definition desc_sort (l : list (N * N)) : list (N * N) := fold_right desc_insert [] l.
+Fixpoint descs_eqb (a b : list (N * N)) : bool :=
+  match a, b with
+  | [], [] => true
+  | x :: r, y :: s => desc_eqb x y && descs_eqb r s
+  | _, _ => false
+  end.
+Fixpoint assoc_desc (d : N * N) (ks : list (N * N)) (vs : list (N * N)) : N * N :=
+  match ks, vs with
+  | k :: kr, v :: vr => if desc_eqb d k then v else assoc_desc d kr vr
+  | _, _ => (0%N, 0%N)
+  end.
+Fixpoint tblR (t : list (list (N * N) * list (N * N))) (q : list (N * N)) : list (N * N) :=
+  match t with
+  | [] => []
+  | (ks, vs) :: r =>
+    if descs_eqb (desc_sort q) ks then map (fun d => assoc_desc d ks vs) q else tblR r q
   end.
 
 Definition opt_eqb {A} (f : A -> A -> bool) (a b : option A) : bool :=
@@ -65,9 +97,26 @@ Fixpoint perm_eqb (a b : list resn) : bool :=
 
 (* observed invoice: LookupInvoice projection *)
 Record hsnap := mkHS { hs_key : N; hs_amt : N; hs_total : N; hs_expiry : Z; hs_height : Z;
-                       hs_state : hstate }.
+                       hs_state : hstate;
+                       (* InvoiceHTLC.AMP: None, or (set id, AMP.Hash, AMP.Preimage) *)
+                       hs_amp : option (N * N * option N) }.
 Record isnap := mkIS { is_hash : N; is_state : cstate; is_paid : N; is_pre : option N;
-                       is_htlcs : list hsnap }.
+                       is_htlcs : list hsnap;
+                       (* Invoice.AMPState: (set id, State, AmtPaid) *)
+                       is_sets : list (N * (hstate * N)) }.
+
+Definition amp_matches (h : htlc) (a : option (N * N * option N)) : bool :=
+  match h_set h, a with
+  | None, None => true
+  | Some s, Some (s', hh, p) => N.eqb s s' && N.eqb (h_hash h) hh && opt_eqb N.eqb (h_pre h) p
+  | _, _ => false
+  end.
+
+Definition set_matches (l : list (N * (hstate * N))) (x : N * (hstate * N)) : bool :=
+  match get_set (fst x) l with
+  | None => false
+  | Some (s, a) => hstate_eqb s (fst (snd x)) && N.eqb a (snd (snd x))
+  end.
 
 Definition htlc_matches (l : list (N * htlc)) (s : hsnap) : bool :=
   match find_htlc (hs_key s) l with
@@ -75,7 +124,7 @@ Definition htlc_matches (l : list (N * htlc)) (s : hsnap) : bool :=
   | Some h =>
     N.eqb (h_amt h) (hs_amt s) && N.eqb (h_total h) (hs_total s) &&
     Z.eqb (h_expiry h) (hs_expiry s) && Z.eqb (h_height h) (hs_height s) &&
-    hstate_eqb (h_state h) (hs_state s)
+    hstate_eqb (h_state h) (hs_state s) && amp_matches h (hs_amp s)
   end.
 
 Definition inv_matches (l : list invoice) (s : isnap) : bool :=
@@ -85,7 +134,9 @@ Definition inv_matches (l : list invoice) (s : isnap) : bool :=
     cstate_eqb (i_state i) (is_state s) && N.eqb (i_paid i) (is_paid s) &&
     opt_eqb N.eqb (i_pre i) (is_pre s) &&
     Nat.eqb (length (i_htlcs i)) (length (is_htlcs s)) &&
-    forallb (htlc_matches (i_htlcs i)) (is_htlcs s)
+    forallb (htlc_matches (i_htlcs i)) (is_htlcs s) &&
+    Nat.eqb (length (i_sets i)) (length (is_sets s)) &&
+    forallb (set_matches (i_sets i)) (is_sets s)
   end.
 
 Definition snap_matches (st : state) (sn : list isnap) : bool :=
@@ -94,21 +145,22 @@ Definition snap_matches (st : state) (sn : list isnap) : bool :=
 Record obs := mkObs { ob_ev : event; ob_reply : reply; ob_ntf : list resn;
                       ob_snap : list isnap }.
 
-Record case := mkCase { cs_cfg : cfg; cs_tbl : list (N * N); cs_ops : list obs }.
+Record case := mkCase { cs_cfg : cfg; cs_tbl : list (N * N);
+                        cs_amp : list (list (N * N) * list (N * N)); cs_ops : list obs }.
 
-Fixpoint run_check (H : N -> N) (g : cfg) (st : state) (ops : list obs) (i : N) (bad : list N)
+Fixpoint run_check (H : N -> N) (R : list (N * N) -> list (N * N)) (g : cfg) (st : state) (ops : list obs) (i : N) (bad : list N)
   : list N :=
   match ops with
   | [] => rev bad
   | o :: r =>
-    let '(st', (rp, ntf)) := step H g st (ob_ev o) in
+    let '(st', (rp, ntf)) := step H R g st (ob_ev o) in
     let ok := reply_eqb rp (ob_reply o) && perm_eqb ntf (ob_ntf o) &&
               snap_matches st' (ob_snap o) in
-    run_check H g st' r (i + 1)%N (if ok then bad else i :: bad)
+    run_check H R g st' r (i + 1)%N (if ok then bad else i :: bad)
   end.
 
 Definition check_case (c : case) : list N :=
-  run_check (tbl (cs_tbl c)) (cs_cfg c) init (cs_ops c) 0%N [].
+  run_check (tbl (cs_tbl c)) (tblR (cs_amp c)) (cs_cfg c) init (cs_ops c) 0%N [].
 
 Fixpoint mismatches (cases : list case) (i : N) : list (N * list N) :=
   match cases with
@@ -122,4 +174,8 @@ Fixpoint mismatches (cases : list case) (i : N) : list (N * list N) :=
 
 (* what the model answers for one case (debugging / replay output) *)
 Definition model_outputs (c : case) : list (reply * list resn) :=
-  snd (run (tbl (cs_tbl c)) (cs_cfg c) init (map ob_ev (cs_ops c))).
+  snd (run (tbl (cs_tbl c)) (tblR (cs_amp c)) (cs_cfg c) init (map ob_ev (cs_ops c))).
+
+(* the model's state after the case (debugging) *)
+Definition model_state (c : case) : state :=
+  fst (run (tbl (cs_tbl c)) (tblR (cs_amp c)) (cs_cfg c) init (map ob_ev (cs_ops c))).
